@@ -3,7 +3,8 @@ Executable model of the image-embedding code of oxidize-pdf-core, transcribed by
 
   graphics/png_decoder.rs   decode_png, PngDecoder::{decode, read_chunk, process_ihdr, process_plte,
                             process_trns, decompress_idat, decode_image_data, unfilter_row,
-                            separate_alpha}, paeth_predictor, PngColorType::{from_byte, channels,
+                            expand_palette, color_key_alpha, separate_alpha}, read_sample,
+                            paeth_predictor, PngColorType::{from_byte, channels, samples_per_pixel,
                             has_alpha}
   graphics/pdf_image.rs     Image::{from_png_data, from_raw_data, from_rgba_data, from_gray_data,
                             from_jpeg_data, to_pdf_object, to_pdf_object_with_transparency,
@@ -11,6 +12,7 @@ Executable model of the image-embedding code of oxidize-pdf-core, transcribed by
   writer/pdf_writer/mod.rs  the image branch of the page-resources writer (SMask written as a
                             separate object and referenced from the image dictionary)
 
+as of the repairs of C24-F2a/F2b/F3a/F3b/F4/F5 (the code before them is `Model/C24Old.lean`).
 Bytes are `Nat`s < 256, `usize`/`u32` arithmetic is checked (a wrap is `Outcome.panic`, as in the
 debug build).  zlib inflate is a parameter (`Inflate`); `storedInflate` below is the instance for
 streams made of stored blocks only, following flate2's `read::ZlibDecoder` as driven by
@@ -22,6 +24,7 @@ namespace OxiVerif.C24
 inductive Err where
   | signature | eof | chunklen | ihdr | colortype | method | interlaced | plte | noihdr | dims
   | noidat | inflate | toolarge | insufficient | filtertype | size
+  | depth | noplte | palindex
   | notjpeg | jpegMarker | jpegTrunc | jpegNodims | jpegComponents
   /-- the model cannot tell (compressed deflate blocks): never produced on generated requests -/
   | inflateUnknown
@@ -35,6 +38,7 @@ def Err.name : Err → String
   | .filtertype => "filtertype" | .size => "size" | .notjpeg => "notjpeg"
   | .jpegMarker => "jpeg-marker" | .jpegTrunc => "jpeg-trunc" | .jpegNodims => "jpeg-nodims"
   | .jpegComponents => "jpeg-components" | .inflateUnknown => "inflate-unknown"
+  | .depth => "depth" | .noplte => "noplte" | .palindex => "palindex"
 
 inductive Outcome (α : Type) where
   | ok (a : α)
@@ -75,6 +79,18 @@ def ColorType.channels : ColorType → Nat
   | .grayAlpha => 2
   | .rgbAlpha => 4
 
+/-- `PngColorType::samples_per_pixel`: what a scanline stores per pixel (one index for `Palette`) -/
+def ColorType.samplesPerPixel : ColorType → Nat
+  | .palette => 1
+  | ct => ct.channels
+
+/-- the `depth_allowed` table of `process_ihdr` (PNG table 11.1) -/
+def depthAllowed (ct : ColorType) (d : Nat) : Bool :=
+  match ct with
+  | .gray => d == 1 || d == 2 || d == 4 || d == 8 || d == 16
+  | .palette => d == 1 || d == 2 || d == 4 || d == 8
+  | _ => d == 8 || d == 16
+
 def ColorType.hasAlpha : ColorType → Bool
   | .grayAlpha => true
   | .rgbAlpha => true
@@ -111,6 +127,7 @@ def processIhdr (st : Decoder) (d : List Nat) : Outcome Decoder :=
     | none => .err .colortype
     | some ct =>
       if d.getD 10 0 ≠ 0 ∨ d.getD 11 0 ≠ 0 then .err .method
+      else if !depthAllowed ct (d.getD 8 0) then .err .depth
       else if d.getD 12 0 ≠ 0 then .err .interlaced
       else .ok { st with width := be32At d 0, height := be32At d 4, bitDepth := d.getD 8 0,
                          colorType := ct, hasIhdr := true }
@@ -214,6 +231,11 @@ def decodeRows (bpp rowLen : Nat) : Nat → List Nat → List Nat → Outcome (L
       | .err e => .err e
       | .panic => .panic
 
+/-- consecutive groups of `n` elements, `k` of them -/
+def splitEvery (n : Nat) : Nat → List Nat → List (List Nat)
+  | 0, _ => []
+  | k + 1, xs => xs.take n :: splitEvery n k (xs.drop n)
+
 /-- `data.chunks_exact(n)` mapped and flattened: split complete `n`-byte groups -/
 def splitChunks (n : Nat) (keep : Nat) : Nat → List Nat → List Nat × List Nat
   | 0, _ => ([], [])
@@ -224,26 +246,89 @@ def splitChunks (n : Nat) (keep : Nat) : Nat → List Nat → List Nat × List N
       let (a, b) := splitChunks n keep fuel (xs.drop n)
       (c.take keep ++ a, c.drop keep ++ b)
 
-/-- `separate_alpha`: 2-byte groups for grey+alpha, 4-byte groups for RGBA, whatever the depth -/
-def separateAlpha (ct : ColorType) (data : List Nat) : List Nat × Option (List Nat) :=
+/-- `separate_alpha`: a sample is one byte at depth 8 and two bytes at depth 16; grey+alpha pixels
+are 2 samples, RGBA pixels 4 samples; the last sample of each pixel goes to the alpha plane -/
+def separateAlpha (ct : ColorType) (depth : Nat) (data : List Nat) : List Nat × Option (List Nat) :=
+  let s := if depth = 16 then 2 else 1
   match ct with
-  | .grayAlpha => let (g, a) := splitChunks 2 1 data.length data; (g, some a)
-  | .rgbAlpha => let (c, a) := splitChunks 4 3 data.length data; (c, some a)
+  | .grayAlpha => let (g, a) := splitChunks (2 * s) s data.length data; (g, some a)
+  | .rgbAlpha => let (c, a) := splitChunks (4 * s) (3 * s) data.length data; (c, some a)
   | _ => (data, none)
 
+/-- `read_sample`: sample `i` of an unfiltered scanline, samples packed most significant bit first
+(`>>` and `&` on a `u16`; the depth is one of 1, 2, 4, 8, 16 after `process_ihdr`) -/
+def readSample (row : List Nat) (i depth : Nat) : Nat :=
+  if depth = 16 then row.getD (2 * i) 0 * 256 + row.getD (2 * i + 1) 0
+  else
+    let bit := i * depth
+    (row.getD (bit / 8) 0 / 2 ^ (8 - depth - bit % 8)) % 2 ^ depth
+
+/-- `data.chunks_exact(n)` (complete chunks only) -/
+def chunksExact (n : Nat) : Nat → List Nat → List (List Nat)
+  | 0, _ => []
+  | fuel + 1, xs =>
+    if xs.length < n ∨ xs.isEmpty then []
+    else xs.take n :: chunksExact n fuel (xs.drop n)
+
+/-- the samples `0 .. perRow-1` of every scanline, in order -/
+def rowSamples (depth perRow rowLen : Nat) (data : List Nat) : List (List Nat) :=
+  (chunksExact rowLen data.length data).map fun row =>
+    (List.range perRow).map fun i => readSample row i depth
+
+/-- `expand_palette`: indices → PLTE entries; with a palette tRNS also the alpha of every pixel
+(entries beyond the end of tRNS are opaque) -/
+def expandPalette (st : Decoder) (data : List Nat) (rowLen : Nat) :
+    Outcome (List Nat × Option (List Nat)) :=
+  match st.palette with
+  | none => .err .noplte
+  | some pal =>
+    let entryAlpha : Option (List Nat) := match st.trns with
+      | some (.palette a) => some a
+      | _ => none
+    let idx := (rowSamples st.bitDepth st.width rowLen data).flatten
+    if idx.any (fun i => decide (pal.length / 3 ≤ i)) then .err .palindex
+    else
+      .ok (idx.flatMap (fun i => [pal.getD (3 * i) 0, pal.getD (3 * i + 1) 0, pal.getD (3 * i + 2) 0]),
+           entryAlpha.map fun a => idx.map fun i => a.getD i 255)
+
+/-- the key of `color_key_alpha` (only a tRNS of the image's own colour type counts) -/
+def colorKey (st : Decoder) : Option (List Nat) :=
+  match st.colorType, st.trns with
+  | .gray, some (.gray g) => some [g]
+  | .rgb, some (.rgb r g b) => some [r, g, b]
+  | _, _ => none
+
+/-- `color_key_alpha`: 0 for a pixel equal to the key, 255 otherwise; one byte per pixel, two at
+depth 16 -/
+def colorKeyAlpha (st : Decoder) (data : List Nat) (rowLen : Nat) : Option (List Nat) :=
+  (colorKey st).map fun key =>
+    (rowSamples st.bitDepth (st.width * key.length) rowLen data).flatMap fun ss =>
+      (splitEvery key.length st.width ss).flatMap fun px =>
+        List.replicate (if st.bitDepth = 16 then 2 else 1) (if px = key then 0 else 255)
+
 /-- `bytes_per_pixel` of `decode_image_data` -/
-def bytesPerPixel (depth : Nat) (ct : ColorType) : Nat := (depth * ct.channels + 7) / 8
+def bytesPerPixel (depth : Nat) (ct : ColorType) : Nat := (depth * ct.samplesPerPixel + 7) / 8
+
+/-- `bytes_per_row` of `decode_image_data` (filter byte included) -/
+def bytesPerRow (w depth : Nat) (ct : ColorType) : Nat :=
+  (w * (depth * ct.samplesPerPixel) + 7) / 8 + 1
+
+/-- the tail of `decode_image_data`: from the unfiltered scanlines to the colour and alpha planes -/
+def planesOf (st : Decoder) (decoded : List Nat) (rowLen : Nat) :
+    Outcome (List Nat × Option (List Nat)) :=
+  if st.colorType = .palette then expandPalette st decoded rowLen
+  else if st.colorType.hasAlpha then .ok (separateAlpha st.colorType st.bitDepth decoded)
+  else .ok (decoded, colorKeyAlpha st decoded rowLen)
 
 /-- `decode_image_data` -/
 def decodeImageData (st : Decoder) (raw : List Nat) : Outcome (List Nat × Option (List Nat)) :=
   let bpp := bytesPerPixel st.bitDepth st.colorType
-  let bytesPerRow := st.width * bpp + 1
+  let bytesPerRow := bytesPerRow st.width st.bitDepth st.colorType
   if st.height * bytesPerRow ≥ usizeMax then .panic
   else if raw.length < st.height * bytesPerRow then .err .insufficient
   else
     match decodeRows bpp (bytesPerRow - 1) st.height raw (List.replicate (bytesPerRow - 1) 0) with
-    | .ok decoded =>
-      if st.colorType.hasAlpha then .ok (separateAlpha st.colorType decoded) else .ok (decoded, none)
+    | .ok decoded => planesOf st decoded (bytesPerRow - 1)
     | .err e => .err e
     | .panic => .panic
 
@@ -358,6 +443,7 @@ structure Mask where
   data : List Nat
   width : Nat
   height : Nat
+  bpc : Nat
   deriving Repr, BEq, DecidableEq
 
 structure Image where
@@ -368,7 +454,7 @@ structure Image where
   colorSpace : ColorSpace
   bitsPerComponent : Nat
   alphaData : Option (List Nat)
-  /-- always `Raw`, DeviceGray, 8 bits when built by this module's constructors -/
+  /-- always `Raw`, DeviceGray when built by this module's constructors -/
   softMask : Option Mask
   deriving Repr, BEq, DecidableEq
 
@@ -381,9 +467,12 @@ def Image.fromPngData (inflate : Inflate) (data : List Nat) : Outcome Image :=
     let cs := match d.colorType with
       | .gray | .grayAlpha => ColorSpace.deviceGray
       | _ => ColorSpace.deviceRGB
+    -- palette indices have been expanded to 8-bit RGB; everything else keeps the PNG's depth
+    let bpc := if d.colorType = .palette then 8 else d.bitDepth
     .ok { data := d.imageData, format := .png, width := d.width, height := d.height,
-          colorSpace := cs, bitsPerComponent := 8, alphaData := d.alphaData,
-          softMask := d.alphaData.map fun a => { data := a, width := d.width, height := d.height } }
+          colorSpace := cs, bitsPerComponent := bpc, alphaData := d.alphaData,
+          softMask := d.alphaData.map fun a =>
+            { data := a, width := d.width, height := d.height, bpc := if bpc = 16 then 16 else 8 } }
 
 /-- `Image::from_raw_data` -/
 def Image.fromRawData (data : List Nat) (w h : Nat) (cs : ColorSpace) (bpc : Nat) : Image :=
@@ -403,7 +492,7 @@ def Image.fromRgbaData (data : List Nat) (w h : Nat) : Outcome Image :=
       let (rgb, a) := splitChunks 4 3 data.length data
       .ok { data := rgb, format := .raw, width := w, height := h, colorSpace := .deviceRGB,
             bitsPerComponent := 8, alphaData := some a,
-            softMask := some { data := a, width := w, height := h } }
+            softMask := some { data := a, width := w, height := h, bpc := 8 } }
 
 /-- `Image::from_gray_data` -/
 def Image.fromGrayData (data : List Nat) (w h : Nat) : Outcome Image :=
@@ -483,7 +572,7 @@ def Image.embed (i : Image) : Embedded :=
                 filter := if i.format == .jpeg then "DCTDecode" else "FlateDecode",
                 data := i.data },
       smask := i.softMask.map fun m =>
-        { width := m.width, height := m.height, bpc := 8, cs := "DeviceGray",
+        { width := m.width, height := m.height, bpc := m.bpc, cs := "DeviceGray",
           filter := "FlateDecode", data := m.data } }
   else
     { main := { width := i.width, height := i.height, bpc := i.bitsPerComponent,
